@@ -34,6 +34,7 @@ def parseAct (toks : List String) : Option Act :=
   | ["cNew", c] => c.toNat?.map .cNew
   | ["cAdd", c] => c.toNat?.map .cAdd
   | ["cEnc", c, f] => do pure (.cEnc (← c.toNat?) (← parseB f))
+  | ["cCompressFail", c] => c.toNat?.map .cCompressFail
   | ["cHandDone", c] => c.toNat?.map .cHandDone
   | ["cHandCtx", c] => c.toNat?.map .cHandCtx
   | ["cSel1Err", c] => c.toNat?.map .cSel1Err
